@@ -7,7 +7,7 @@ FIXED_TYPES = ALL_TYPES[:11]
 NAMES = ['A', 'B7', 'Tag_1', 'motor', 'Speed_SP', 'x', 'LongerTagName_0123456789', 'Odd', 'Line.Rate', 'T']
 
 
-def gen_config(rng, ntags=None, sizes=None, with_addresses=True, types=None, force_sharing=False):
+def gen_config(rng, ntags=None, sizes=None, with_addresses=True, types=None, force_sharing=False, router_instance=False):
     """-> list of (name, type, size, address|None)"""
     types = types or ALL_TYPES
     ntags = ntags or rng.choice([1, 2, 3, 4, 6])
@@ -35,6 +35,15 @@ def gen_config(rng, ntags=None, sizes=None, with_addresses=True, types=None, for
         cfg[0] = (n0, t0, s0, '0x93/7/1')
         cfg[1] = (cfg[1][0], t0, s0, '0x93/7/1')
         cfg[2] = (cfg[2][0], cfg[2][1], cfg[2][2], '0x93/7/2')
+    if router_instance:
+        # a tag bound explicitly into the instance where the simulator also allocates its automatic tags (@2/1/N, N a little above
+        # what is allocated so far), defined FIRST and followed by enough automatically allocated tags to count past N
+        n0, t0, s0, _ = cfg[0]
+        cfg[0] = (n0, t0, s0, '2/1/%d' % rng.choice([2, 3, 4]))
+        extra = [nm for nm in NAMES if nm not in [c[0] for c in cfg]]
+        while sum(1 for c in cfg if not c[3]) < 5 and extra:
+            cfg.append((extra.pop(0), rng.choice(types), rng.choice(sizes), None))
+        cfg = [cfg[0]] + [c for c in cfg[1:] if not (c[3] or '').startswith('2/1/')]
     return cfg
 
 
